@@ -141,6 +141,7 @@ def dispatch (op : String) (args : List Str) : String :=
   | "roundtrip", [s] => opRoundtrip s
   | "thm04", [s] => opThm04 s
   | "thm08", [s] => opThm08 s
+  | "thm15", [s] => opThm15 s
   | "chardata", k :: c :: ops => chardata (String.ofList k) c ops
   | "dom", t :: _ :: ops => opDom t ops
   | "query", t :: b :: es => opQuery "rz" t b es
